@@ -303,7 +303,8 @@ def check_tryfrom(ctx, F, crate, lpath, name, base, rule, key0, is_flag):
         sem = ev(fn["hir"], {pname: ("V",)})
         err = classify_conv(sem, S, base, lpath, name, F, is_flag, fallible=bool(tf))
         if err:
-            ctx.violate(rule, k + "|idiom", f"{name}: {im['trait']}: {err}", fn["file"], fn["line"])
+            # the observed denotation is part of the key: a different wrong conversion in the same impl is another instance
+            ctx.violate(rule, k + "|idiom|" + " ".join(str(err).split())[:120], f"{name}: {im['trait']}: {err}", fn["file"], fn["line"])
     return n
 
 
